@@ -31,14 +31,14 @@ RULE_HIST = ('breadth-first search over event histories (application calls incl.
 PLANS = {
     'C01': {
         'level': 'model_checking', 'rule': RULE_HIST, 'assumptions': ASSUME, 'targets': T,
-        'deadline': {'quick': 420, 'thorough': 2400},
+        'deadline': {'quick': 600, 'thorough': 3000},
         'jobs': [
             job('life-udp', 'life-udp', 'C01', {'quick': 4, 'thorough': 4}, {'quick': 1, 'thorough': 2},
                 wit=['tx_udp', 'timer_fired', 'fault_fired']),
             job('life-reentrant', 'life-reentrant', 'C01', {'quick': 4, 'thorough': 5}, {'quick': 1, 'thorough': 2},
                 wit=['reentrant_request', 'reentrant_cancel']),
             job('life-tcp', 'life-tcp', 'C01', {'quick': 4, 'thorough': 5}, {'quick': 1, 'thorough': 2}, wit=['tx_tcp', 'short_write']),
-            job('opts', 'opts', 'C01', {'quick': 4, 'thorough': 5}, {'quick': 0, 'thorough': 1}, wit=['reentrant_cancel', 'tx_tcp', 'tx_udp']),
+            job('opts', 'opts', 'C01', {'quick': 4, 'thorough': 4}, {'quick': 0, 'thorough': 1}, wit=['reentrant_cancel', 'tx_tcp', 'tx_udp']),
         ],
     },
     'C05': {
@@ -56,7 +56,7 @@ PLANS = {
             job('retry', 'retry', 'C06', {'quick': 4, 'thorough': 5}, {'quick': 1, 'thorough': 1},
                 wit=['c06_retransmission', 'c06_budget_exhausted', 'c06_gap_checked', 'c06_tc_upgrade_seen', 'c06_edns_downgrade_seen', 'policy_alternatives', 'fault_fired']),
             job('retry-long', 'retry-long', 'C06', 1, 0, wit=['c06_budget_exhausted'], min_outcomes=1, shards=1),
-            job('retry-opts', 'opts', 'C06', {'quick': 4, 'thorough': 5}, {'quick': 0, 'thorough': 1}, tiers=('thorough',), wit=['c06_retransmission']),
+            job('retry-opts', 'opts', 'C06', {'quick': 4, 'thorough': 4}, {'quick': 0, 'thorough': 1}, tiers=('thorough',), wit=['c06_retransmission']),
             job('retry-gai', 'retry-gai', 'C06', {'quick': 5, 'thorough': 6}, 0, wit=['c06_tc_upgrade_seen', 'c06_retransmission']),
         ],
     },
@@ -66,7 +66,7 @@ PLANS = {
         'jobs': [
             job('hint-udp', 'life-udp', 'C07', {'quick': 4, 'thorough': 4}, {'quick': 1, 'thorough': 2}, wit=['hint_checked', 'timer_fired']),
             job('hint-retry', 'retry', 'C07', {'quick': 4, 'thorough': 5}, {'quick': 1, 'thorough': 1}, wit=['hint_checked', 'timer_fired']),
-            job('hint-opts', 'opts', 'C07', {'quick': 4, 'thorough': 5}, {'quick': 0, 'thorough': 1}, tiers=('thorough',), wit=['hint_checked', 'timer_fired']),
+            job('hint-opts', 'opts', 'C07', {'quick': 4, 'thorough': 4}, {'quick': 0, 'thorough': 1}, tiers=('thorough',), wit=['hint_checked', 'timer_fired']),
             job('hint-tcp', 'life-tcp', 'C07', {'quick': 4, 'thorough': 5}, {'quick': 1, 'thorough': 2}, wit=['hint_checked', 'timer_fired']),
         ],
     },
@@ -81,12 +81,12 @@ PLANS = {
     },
     'C10': {
         'level': 'model_checking', 'rule': RULE_HIST + '; per-descriptor automaton from the socket-call log, sock-state callback stream, legacy ares_fds/ares_getsock sets compared with what the channel holds, a fault at every socket call site', 'assumptions': ASSUME, 'targets': T,
-        'deadline': {'quick': 420, 'thorough': 2400},
+        'deadline': {'quick': 600, 'thorough': 5400},
         'jobs': [
             job('sock', 'sock', 'C10', {'quick': 4, 'thorough': 5}, {'quick': 1, 'thorough': 2}, wit=['fault_fired', 'tx_tcp', 'tx_udp', 'write_interest_needed', 'pending_write_cb']),
             job('sock-life-udp', 'life-udp', 'C10', {'quick': 4, 'thorough': 4}, {'quick': 1, 'thorough': 2}, wit=['fault_fired']),
             job('sock-reentrant', 'life-reentrant', 'C10', {'quick': 4, 'thorough': 5}, {'quick': 1, 'thorough': 2}),
-            job('sock-opts', 'opts', 'C10', {'quick': 4, 'thorough': 5}, {'quick': 0, 'thorough': 1}, wit=['tx_tcp', 'tx_udp', 'pending_write_cb']),
+            job('sock-opts', 'opts', 'C10', {'quick': 4, 'thorough': 5}, {'quick': 0, 'thorough': 0}, wit=['tx_tcp', 'tx_udp', 'pending_write_cb']),
         ],
     },
     'C09': {
